@@ -279,8 +279,14 @@ func trimValidIPv6Field(s string, gotFields int, hasEllipsis bool) (withoutField
 	}
 
 	if s[fieldLen] == '.' {
-		// Probably an IPv4 in the end.
-		return "", hasEllipsis == (gotFields < maxIPv6FieldsNum-2) && isValidIPv4String(s)
+		// Probably an IPv4 in the end, which takes the place of two fields.
+		// Without an ellipsis there must be exactly six fields before it.
+		validNum := gotFields == maxIPv6FieldsNum-2
+		if hasEllipsis {
+			validNum = gotFields < maxIPv6FieldsNum-2
+		}
+
+		return "", validNum && isValidIPv4String(s)
 	}
 
 	return s[fieldLen:], true
